@@ -811,7 +811,24 @@ def eval_slice_index(self, base, lo, hi, step):
     if isinstance(base, PList) and not base.symbolic:
         if is_concrete(lo) and is_concrete(hi):
             return PList(base.items[lo:hi])
-        raise Unsupported("symbolic slice of concrete list")
+        n = len(base.items)
+        if n > 16:
+            raise Unsupported("symbolic slice of a long concrete list")
+
+        def conc(b, default):
+            """concretise a symbolic slice bound by case split over -n..n (clipped like Python does)"""
+            if b is None or is_concrete(b):
+                return default if b is None else b
+            t = self.to_z3(b, "int")
+            if self.path.branch(t >= n):
+                return n
+            if self.path.branch(t <= -n):
+                return -n
+            for v in range(-n + 1, n):
+                if self.path.branch(t == v):
+                    return v
+            raise Unsupported("unreachable slice bound")
+        return PList(base.items[conc(lo, None):conc(hi, None)] if lo is not None or hi is not None else list(base.items))
     if isinstance(base, (bytes, str, tuple)) and is_concrete(lo) and is_concrete(hi):
         return base[lo:hi]
     if isinstance(base, tuple):
